@@ -85,8 +85,10 @@ def build_synapse(c, shape, dt, delay, batch):
 
 
 # ---------------------------------------------------------------------------------- connections
-def connection_cfg(rng, kind, synapse, delayed, n_in=None, bias=None):
-    c = {"kind": kind, "synapse": synapse, "delay": (rng.choice([2.0, 3.0, 4.0]) if delayed else None),
+def connection_cfg(rng, kind, synapse, delayed, n_in=None, bias=None, dyadic=False):
+    """dyadic=True: weights / biases on a 1/8 grid and a power-of-two spike charge, so that (with delta synapses) every
+    sum the connection forms is exact in float64 whatever the order of summation"""
+    c = {"kind": kind, "dyadic": bool(dyadic), "synapse": synapse, "delay": (rng.choice([2.0, 3.0, 4.0]) if delayed else None),
          "bias": bool(rng.random() < 0.4) if bias is None else bool(bias), "wseed": rng.randrange(2**31),
          "wscale": rng.choice([0.75, 1.0, 1.5])}
     if kind == "dense":
@@ -98,16 +100,24 @@ def connection_cfg(rng, kind, synapse, delayed, n_in=None, bias=None):
         c.update({"h": rng.choice([4, 5]), "w": rng.choice([4, 5]), "ch": rng.choice([1, 2]), "f": rng.choice([1, 2]),
                   "k": rng.choice([2, 3]), "stride": rng.choice([1, 2]), "pad": rng.choice([0, 1])})
     # keep the total drive per output element comparable across fan-ins
-    c["synapse"] = dict(synapse, charge=synapse["charge"] / conn_in_scale(c))
+    ch = synapse["charge"] / conn_in_scale(c)
+    if dyadic:
+        ch = 2.0 ** round(math.log2(ch))
+    c["synapse"] = dict(synapse, charge=ch)
     return c
 
 
 def build_connection(c, dt, batch):
     g = gen(c["wseed"])
     syn = synapse_constructor(c["synapse"])
-    kw = dict(synapse=syn, bias=c["bias"], delay=c["delay"], batch_size=batch,
-              weight_init=lambda w: torch.rand(w.shape, generator=g) * c["wscale"],
-              bias_init=lambda b: torch.rand(b.shape, generator=g) * 4.0)
+    if c.get("dyadic"):
+        kw = dict(synapse=syn, bias=c["bias"], delay=c["delay"], batch_size=batch,
+                  weight_init=lambda w: torch.randint(0, 17, w.shape, generator=g).to(w.dtype) / 8 * c["wscale"],
+                  bias_init=lambda b: torch.randint(0, 17, b.shape, generator=g).to(b.dtype) / 4)
+    else:
+        kw = dict(synapse=syn, bias=c["bias"], delay=c["delay"], batch_size=batch,
+                  weight_init=lambda w: torch.rand(w.shape, generator=g) * c["wscale"],
+                  bias_init=lambda b: torch.rand(b.shape, generator=g) * 4.0)
     if c["delay"] is not None:
         nslots = int(round(c["delay"] / dt))
         # heterogeneous delays on the step grid and off it (interpolated reads)
@@ -138,7 +148,12 @@ def conn_in_scale(c):
 
 
 # ---------------------------------------------------------------------------------- layers
-def layer_cfg(rng, kind, conn_kind=None, syn_kind=None, neuron_kind=None, delayed=None, inplace=None, batch=None):
+def layer_cfg(rng, kind, conn_kind=None, syn_kind=None, neuron_kind=None, delayed=None, inplace=None, batch=None, dyadic=False):
+    _ccfg = connection_cfg
+    def connection_cfg_(*a, **k):
+        return _ccfg(*a, dyadic=dyadic, **k)
+    if dyadic and syn_kind is None:
+        syn_kind = rng.choice(["delta", "deltaplus"])
     dt = rng.choice([0.5, 1.0])
     B = batch if batch is not None else rng.choice([1, 2, 3])
     delayed = (rng.random() < 0.5) if delayed is None else delayed
@@ -148,30 +163,30 @@ def layer_cfg(rng, kind, conn_kind=None, syn_kind=None, neuron_kind=None, delaye
         return neuron_cfg(rng, neuron_kind or rng.choice(NEURON_KINDS))
     c = {"layer": kind, "dt": dt, "batch": B}
     if kind == "serial":
-        c["conns"] = [connection_cfg(rng, conn_kind or rng.choice(CONNECTIONS), syn(), delayed)]
+        c["conns"] = [connection_cfg_(rng, conn_kind or rng.choice(CONNECTIONS), syn(), delayed)]
         c["neurons"] = [neu()]
     elif kind == "biclique":
         k = conn_kind or rng.choice(["dense", "direct", "lateral"])
         if k == "conv":
-            c0 = connection_cfg(rng, "conv", syn(), delayed)
+            c0 = connection_cfg_(rng, "conv", syn(), delayed)
             c1 = dict(c0, synapse=syn(), wseed=rng.randrange(2**31))
         elif k == "dense":
-            c0 = connection_cfg(rng, "dense", syn(), delayed)
-            c1 = connection_cfg(rng, "dense", syn(), rng.random() < 0.5)
+            c0 = connection_cfg_(rng, "dense", syn(), delayed)
+            c1 = connection_cfg_(rng, "dense", syn(), rng.random() < 0.5)
             c1["out"] = c0["out"]
         else:
-            c0 = connection_cfg(rng, k, syn(), delayed)
-            c1 = connection_cfg(rng, rng.choice(["direct", "lateral"]), syn(), rng.random() < 0.5, n_in=c0["in"])
+            c0 = connection_cfg_(rng, k, syn(), delayed)
+            c1 = connection_cfg_(rng, rng.choice(["direct", "lateral"]), syn(), rng.random() < 0.5, n_in=c0["in"])
         c["conns"] = [c0, c1]
         c["neurons"] = [neu(), neu()]
         c["combine"] = rng.choice(["sum", "mean", "max"])
     elif kind == "recurrent":
-        ff = connection_cfg(rng, conn_kind if conn_kind in ("dense", "direct") else "dense", syn(), delayed)
+        ff = connection_cfg_(rng, conn_kind if conn_kind in ("dense", "direct") else "dense", syn(), delayed)
         n = ff["out"]
         lk = rng.choice(["dense", "direct", "lateral"])
-        lat = connection_cfg(rng, lk, syn(), rng.random() < 0.4, n_in=n)
+        lat = connection_cfg_(rng, lk, syn(), rng.random() < 0.4, n_in=n)
         m = lat["out"] if lk == "dense" else n
-        fb = connection_cfg(rng, "dense", syn(), rng.random() < 0.4, n_in=m)
+        fb = connection_cfg_(rng, "dense", syn(), rng.random() < 0.4, n_in=m)
         fb["out"] = n
         c["conns"] = [ff, lat, fb]
         c["neurons"] = [neu(), neu()]
